@@ -65,9 +65,50 @@ def burst_cases(rng, f, n, msb):
     return out
 
 
+def crc_kernel_burst():
+    """Model-guided search used when the CRC theory breaks: a non-zero window value V < 2^L (L <= 32) with Zs^L(V) = 0 for the
+    polynomial of the CURRENT source (gen/NvmConsts.v).  XOR-ing V (LSB-first) into any L-bit window leaves the CRC unchanged.
+    None when Zs^L is injective for every L <= 32 (what C12_Zs_injective_32 states)."""
+    import re
+    t = open(os.path.join(vlib.COQ, 'NV', 'gen', 'NvmConsts.v')).read()
+    poly = int(re.search(r'Definition crc_poly : N := (\d+)\.', t).group(1))
+    def zs(x):
+        return ((x >> 1) ^ poly) if x & 1 else (x >> 1)
+    for L in range(1, 33):
+        rows = []                      # (image, combination) for basis vectors 2^i, i < L
+        for i in range(L):
+            x = 1 << i
+            for _ in range(L):
+                x = zs(x)
+            rows.append([x, 1 << i])
+        # Gaussian elimination over GF(2) looking for a combination with image 0
+        piv = {}
+        for img, comb in rows:
+            while img:
+                h = img.bit_length() - 1
+                if h in piv:
+                    img ^= piv[h][0]; comb ^= piv[h][1]
+                else:
+                    piv[h] = (img, comb); break
+            if img == 0 and comb:
+                return L, comb
+    return None
+
+
 def nano_vm_refuses(b, path, d):
     rc, o, e = nvmlib.run_tool([b.bin('nano_vm'), path], cwd=d, timeout=20)
     return (rc == 1 and 'invalid .nvm format' in e and o == ''), rc, o, e
+
+
+CAP = 12
+
+
+def capped(ck, cat, key, what, replay):
+    """at most CAP reported inputs per category (the rest is counted in the evidence)"""
+    n = ck.extra.setdefault('failures_by_category', {})
+    n[cat] = n.get(cat, 0) + 1
+    if n[cat] <= CAP:
+        ck.fail(key, what, replay)
 
 
 def run(ck):
@@ -161,7 +202,7 @@ def run(ck):
             ck.count(None, False, n=min(256, nflip))
             for p in body + hdr_protected:
                 g = bytearray(f); g[p // 8] ^= 1 << (p % 8)
-                ck.fail('c12:flip-accepted:%s:bit=%d' % (name, p), 'single-bit flip at bit %d (byte %d) is accepted' % (p, p // 8),
+                capped(ck, 'flip-accepted', 'c12:flip-accepted:%s:bit=%d' % (name, p), 'single-bit flip at bit %d (byte %d) is accepted' % (p, p // 8),
                         dict(engine='nvm_probe(asan)', input='load ' + bytes(g).hex(), file=name, bit=p))
         elif kind == 'truncs':
             name, f = meta
@@ -171,14 +212,14 @@ def run(ck):
             for k in range(len(f)):
                 ck.count((fh, 'trunc', k), True)
             for k in acc:
-                ck.fail('c12:trunc-accepted:%s:len=%d' % (name, k), 'file truncated to %d of %d bytes is accepted' % (k, len(f)),
+                capped(ck, 'trunc-accepted', 'c12:trunc-accepted:%s:len=%d' % (name, k), 'file truncated to %d of %d bytes is accepted' % (k, len(f)),
                         dict(engine='nvm_probe(asan)', input='load ' + nvmlib.hexs(f[:k]), file=name))
         elif kind in ('burst', 'tail', 'hdr'):
             name, f, g, what = meta
             dist[{'burst': 'bursts_msb' if ':msb:' in what else 'bursts_lsb', 'tail': 'random_tails', 'hdr': 'header_faults'}[kind]] += 1
             ck.count((nvmlib.fhash(g), what), g[32:] != f[32:] or kind == 'hdr')
             if a != 'NULL':
-                ck.fail('c12:%s-accepted:%s:%s' % (kind, name, what), 'damaged file (%s) is accepted' % what,
+                capped(ck, kind + '-accepted', 'c12:%s-accepted:%s:%s' % (kind, name, what), 'damaged file (%s) is accepted' % what,
                         dict(engine='nvm_probe(asan)', input=l[:6000], file=name, fault=what))
         elif kind == 'crc':
             dist['crc_buffers'] += 1
@@ -191,13 +232,34 @@ def run(ck):
     if len(impl) != len(lines):
         ck.fail('c12:linecount', 'probe answered %d of %d lines' % (len(impl), len(lines)), dict(correspondence='nvm_probe vs nvref_c12'))
 
+    # ---- model-guided search for an undetected burst (finds the input when the CRC theorems break)
+    kb = crc_kernel_burst()
+    ck.extra['crc_kernel_burst'] = 'none: Zs^L injective on L-bit windows for every L <= 32' if kb is None else 'L=%d V=%#x' % kb
+    if kb is not None:
+        L, V = kb
+        klines, kmeta = [], []
+        for name, f, ret in files:
+            if 8 * (len(f) - 32) >= L:
+                g = bytearray(f)
+                for k in range(L):
+                    if (V >> k) & 1:
+                        g[32 + k // 8] ^= 1 << (k % 8)
+                klines.append('load ' + bytes(g).hex()); kmeta.append((name, bytes(g)))
+        ka, _, _ = nvmlib.probe_lines(probe, klines)
+        for (name, g), a in zip(kmeta, ka):
+            ck.count((nvmlib.fhash(g), 'kernel-burst'), True)
+            if a != 'NULL':
+                capped(ck, 'kernel-burst', 'c12:burst-accepted:%s:kernel:L=%d:V=%x' % (name, L, V),
+                        'a %d-bit burst (pattern %#x at body bit 0) leaves the checksum unchanged and the file is accepted' % (L, V),
+                        dict(engine='nvm_probe(asan)', input='load ' + g.hex()[:6000], file=name, burst_len=L, pattern=hex(V)))
+
     # ---- extension with a CRC-steered tail
     ext_hits = []
     for (name, f), t, a, m in zip(steer_in, tails, ext_impl, ext_model):
         dist['steered_tails'] += 1
         ck.count((nvmlib.fhash(f), 'steer', t), True)
         if a != m:
-            ck.fail('c12:corr:steer:' + name, 'nvm_probe and model differ on file + steered tail',
+            capped(ck, 'corr-steer', 'c12:corr:steer:' + name, 'nvm_probe and model differ on file + steered tail',
                     dict(correspondence='nvm_probe vs nvref_c12', file=name, tail=t, observed_impl=a[:2000], expected_model=m[:2000]))
         if a != 'NULL':
             ext_hits.append((name, f, t))
@@ -233,7 +295,7 @@ def run(ck):
         dist['nano_vm_runs'] += 1
         ck.count((nvmlib.fhash(g), 'nano_vm', what), True)
         if not refused:
-            ck.fail('c12:nano_vm:%s:%s' % (name, what), 'nano_vm did not refuse a damaged file (%s)' % what,
+            capped(ck, 'nano_vm', 'c12:nano_vm:%s:%s' % (name, what), 'nano_vm did not refuse a damaged file (%s)' % what,
                     dict(engine='nano_vm', input_hex=g.hex(), file=name, fault=what, exit=rc, stdout=o[:500], stderr=e[:500]))
 
     # ---- open known findings not already re-established above are replayed here (keys must match exactly)
